@@ -59,6 +59,8 @@ def verify_contract(repo: str, con: Any, contracts_by_target: dict[str, Any], mo
     ctx = Ctx(max(timeout_ms, int(con.__dict__.get("prove_timeout_s", 0) * 1000)))
     ctx.cross_check_every = 4 if timeout_ms > 10000 else 0
     budget = con.__dict__.get("budget_s", 150 if timeout_ms <= 10000 else 900)
+    if mode == "small":
+        budget = min(budget, 120)    # the counterexample search is an extra, it must not dominate a check
     ctx.deadline = time.time() + budget
     ctx.name_prefix = f"{con.target}{'' if mode == 'main' else '{' + mode + '}'}"
     try:
